@@ -274,7 +274,7 @@ impl Prop for C05 {
     fn evidence(&self, tier: Tier) -> EvidenceSpec {
         EvidenceSpec {
             level: "exploration",
-            rule: "every program produced by type-directed enumeration up to the size bound (goal types int, bool, type, int -> int, bool -> int, (int -> int) -> int, bool -> type, (a : type) -> a -> a; variables, literals, arithmetic, comparison, conditional, lambda, application incl. beta-redexes and higher-order arguments, groups of one and two definitions with recursion, mutual recursion and forward type aliases, computed annotations, polymorphic identity) and every closed fully annotated term up to the node bound over a 9-atom / 8-former alphabet that the reference checker accepts; each must be accepted by the real front end with a type convertible to the expected one, and the elaborated term must be the source term with holes filled (lock-step skeleton comparison). Also every member the reference accepts of the type-pair family: ordered pairs of the smallest generated types and of all definition groups denoting types (1-2 / 1-3 members, aliases in both directions) meeting at an argument, at the branches of a conditional and at an annotated definition; the same for open types under two type parameters with a type-level function whose body is a group; and pairs of terms of five kinds (incl. the implicit polymorphic identity) under an opaque type constructor after instantiating a dependent codomain. A rejection by the definition-order check alone is a violation unless the reference model of the rule (sem::order_rule_violated) finds a computed definition that needs a later computed definition. non-trivial = accepted programs whose skeleton was compared".to_owned(),
+            rule: "every program produced by type-directed enumeration up to the size bound (goal types int, bool, type, int -> int, bool -> int, (int -> int) -> int, bool -> type, (a : type) -> a -> a; variables, literals, arithmetic, comparison, conditional, lambda, application incl. beta-redexes and higher-order arguments, groups of one and two definitions with recursion, mutual recursion and forward type aliases, computed annotations, polymorphic identity) and every closed fully annotated term up to the node bound over a 9-atom / 8-former alphabet that the reference checker accepts; each must be accepted by the real front end with a type convertible to the expected one, and the elaborated term must be the source term with holes filled (lock-step skeleton comparison). Also every member the reference accepts of the type-pair family: ordered pairs of the smallest generated types and of all definition groups denoting types (1-2 / 1-3 members, aliases in both directions) meeting at an argument, at the branches of a conditional and at an annotated definition; the same for open types under two type parameters with a type-level function whose body is a group; and pairs of terms of five kinds (incl. the implicit polymorphic identity) under an opaque type constructor after instantiating a dependent codomain. A rejection by the definition-order check alone is a violation unless the reference model of the rule (sem::order_rule_violated) finds a computed definition that needs a later computed definition. non-trivial = accepted programs whose skeleton was compared For every accepted program the text that `gram check` prints for the elaborated term is read back (tokenize, parse) and must again be the source program with holes filled in (names of unused function-type parameters aside); text that does not read back at all is counted and left to C16.".to_owned(),
             assumptions: vec![
                 "typing rules of DESIGN.md 5.6 (engine/src/model/typing.rs): type : type, `_` has type type, implicit functions cannot be applied, conversion ignores lambda annotations, no eta".to_owned(),
                 "programs on which the reference runs out of fuel are skipped (counted)".to_owned(),
